@@ -333,3 +333,8 @@ fn construct_aad<'a>(
 ) -> impl Iterator<Item = &'a [u8]> {
     [server_s_pk].into_iter().chain(id_s).chain(id_u)
 }
+
+// verification hook (guard: cfg(kani) / --cfg opaque_ke_verif); inert in every ordinary build
+#[cfg(any(kani, opaque_ke_verif))]
+#[path = "/verif/harness/incrate/child_envelope.rs"]
+pub(crate) mod verif_kani_envelope;
